@@ -231,3 +231,84 @@ Section Frame.
     - reflexivity.
   Qed.
 End Frame.
+
+(* ---------------------------------------------------------------------------------- *)
+(* what an .aux file without \@input says: the citations are the comma-separated pieces of the
+   \citation lines, in order; the style / database are those of the FIRST \bibstyle / \bibdata line *)
+Definition line_cites (l : str) : list str :=
+  match match_command l with Some (ACitation, v) => split_on s_comma v | _ => [] end.
+Definition line_style (l : str) : option str :=
+  match match_command l with Some (ABibstyle, v) => Some v | _ => None end.
+Definition line_data (l : str) : option (list str) :=
+  match match_command l with Some (ABibdata, v) => Some (split_on s_comma v) | _ => None end.
+Definition no_input (l : str) : bool :=
+  match match_command l with Some (AInput, _) => false | _ => true end.
+Fixpoint first_some {X Y} (f : X -> option Y) (l : list X) : option Y :=
+  match l with [] => None | x :: r => match f x with Some y => Some y | None => first_some f r end end.
+
+Lemma handle_citation_cites : forall ks ad,
+  let ad' := fold_left handle_citation_key ks ad in
+  ax_cites ad' = ax_cites ad ++ ks /\ ax_style ad' = ax_style ad /\ ax_data ad' = ax_data ad.
+Proof.
+  induction ks as [|k r IH]; intros ad; cbn.
+  - now rewrite app_nil_r.
+  - destruct (IH (handle_citation_key ad k)) as (H1 & H2 & H3). rewrite H1, H2, H3. cbn. now rewrite <- app_assoc.
+Qed.
+
+Definition aux_line_step (depth : nat) (fs : fsys) (line : str) (ad : auxdata) : res auxdata :=
+  match match_command line with
+  | None => Ok ad
+  | Some (ACitation, v) => Ok (handle_citation ad v)
+  | Some (ABibstyle, v) => Ok (handle_bibstyle ad v)
+  | Some (ABibdata, v) => Ok (handle_bibdata ad v)
+  | Some (AInput, v) =>
+    match depth with
+    | O => OutOfFuel
+    | S d =>
+      match fs_get fs v with
+      | Some (FAux ls) => aux_parse_lines d fs ls ad
+      | Some _ => Unmodelled
+      | None => PyErr E_IO (-1)
+      end
+    end
+  end.
+Lemma aux_parse_lines_nil depth fs ad : aux_parse_lines depth fs [] ad = Ok ad.
+Proof. destruct depth; reflexivity. Qed.
+Lemma aux_parse_lines_cons depth fs l r ad :
+  aux_parse_lines depth fs (l :: r) ad = (do ad' <- aux_line_step depth fs l ad; aux_parse_lines depth fs r ad').
+Proof. destruct depth; reflexivity. Qed.
+
+Lemma aux_parse_lines_flat depth fs : forall lines ad ad',
+  forallb no_input lines = true ->
+  aux_parse_lines depth fs lines ad = Ok ad' ->
+  ax_cites ad' = ax_cites ad ++ flat_map line_cites lines /\
+  ax_style ad' = match ax_style ad with Some s => Some s | None => first_some line_style lines end /\
+  ax_data ad' = match ax_data ad with Some d => Some d | None => first_some line_data lines end.
+Proof.
+  induction lines as [|l r IH]; intros ad ad' Hn H.
+  - rewrite aux_parse_lines_nil in H. inversion H; subst. cbn. rewrite app_nil_r.
+    destruct (ax_style ad'), (ax_data ad'); auto.
+  - rewrite aux_parse_lines_cons in H. cbn in Hn. apply andb_prop in Hn as [Hl Hr].
+    unfold no_input in Hl. unfold aux_line_step in H.
+    cbn [flat_map first_some]. unfold line_cites at 1, line_style at 1, line_data at 1.
+    destruct (match_command l) as [[[ | | | ] v]|] eqn:E; try discriminate; cbn [bind] in H;
+      destruct (IH _ _ Hr H) as (H1 & H2 & H3); rewrite H1, H2, H3; clear IH H1 H2 H3.
+    + unfold handle_citation. destruct (handle_citation_cites (split_on s_comma v) ad) as (K1 & K2 & K3).
+      rewrite K1, K2, K3, <- app_assoc. auto.
+    + unfold handle_bibdata. destruct (ax_data ad); cbn; auto.
+    + unfold handle_bibstyle. destruct (ax_style ad); cbn; auto.
+    + auto.
+Qed.
+
+Lemma aux_file_says depth fs name lines ad :
+  fs_get fs name = Some (FAux lines) -> forallb no_input lines = true ->
+  aux_parse_file depth fs name = Ok ad ->
+  ax_cites ad = flat_map line_cites lines /\
+  ax_style ad = first_some line_style lines /\ ax_data ad = first_some line_data lines.
+Proof.
+  intros Hg Hn. unfold aux_parse_file. rewrite Hg.
+  destruct (aux_parse_lines depth fs lines aux_init) as [a| | |] eqn:E; cbn [bind]; try discriminate.
+  destruct (aux_parse_lines_flat _ _ _ _ _ Hn E) as (H1 & H2 & H3). cbn in H1, H2, H3.
+  destruct (ax_data a) eqn:Ed; [|discriminate]. destruct (ax_style a) eqn:Es; [|discriminate].
+  intros H; inversion H; subst. rewrite Ed, Es. auto.
+Qed.
